@@ -31,6 +31,38 @@ def main(d):
         log("replay passes on the current tree")
         return 0
     src = open(os.path.join(d, "repro.rs")).read()
+    kind = case.get("key", {}).get("kind") or ""
+    cfgs = case.get("detail", {}).get("cfgs") or []
+    MUST_NOT_COMPILE = {"out-of-domain-accepted", "invalid-configuration-accepted", "sorted-accepts-unsorted",
+                        "item-accessible-beyond-requested-visibility", "default-name-still-exists", "helper-item-reachable-from-outside"}
+    MUST_COMPILE = {"does-not-compile", "documented-configuration-rejected", "legal-attribute-rejected", "parent-does-not-compile",
+                    "sorted-rejects-sorted", "item-not-accessible-where-requested", "declaration-does-not-compile",
+                    "derive-adds-unrequested-item", "documented-signature-probe-fails", "signature-depends-on-configuration",
+                    "does-not-compile-in-scope", "split-attributes-differ"}
+    if kind in MUST_NOT_COMPILE or kind in MUST_COMPILE:
+        # the verdict of these kinds is rustc's accept/reject of repro.rs (twice, uncached)
+        sib = os.path.join(d, "sibling.rs")
+        if os.path.exists(sib):
+            # two crates: repro.rs is the library `c15`, sibling.rs the crate probing it from outside
+            import props_vis
+            rmeta, err = props_vis.rmeta_build(src, "replay")
+            if rmeta is None:
+                log("the library crate does not build: " + err[-800:])
+                return 2
+            extra = ["-L", "dependency=" + os.path.dirname(e2.build_anchor())]
+            vs = [e2.compile_one(open(sib).read(), externs={"c15": rmeta}, use_cache=False, extra=extra) for _ in range(2)]
+        else:
+            vs = [e2.compile_one(src, cfgs=cfgs, crate_type="bin" if "fn main" in src else "lib", use_cache=False) for _ in range(2)]
+        if vs[0].ok != vs[1].ok:
+            log("the two compilations differ: not deterministic")
+            return 2
+        log("rustc %s repro.rs%s" % ("accepts" if vs[0].ok else "rejects: %s" % vs[0].errors[:3], " (cfgs %s)" % cfgs if cfgs else ""))
+        violated = vs[0].ok if kind in MUST_NOT_COMPILE else not vs[0].ok
+        if violated:
+            print("VIOLATION property=%s replay=%s" % (prop, d))
+            return 1
+        log("replay passes on the current tree")
+        return 0
     runs = []
     se = ""
     for _ in range(2):
